@@ -80,16 +80,17 @@ def multi_period_stream_not_ready(mps: MultiPeriodStream) -> str | None:
 def manifest_not_ready(dash: ManifestContext) -> str | None:
     """
     Returns the reason why a manifest context cannot be rendered, or
-    None if every period has a video adaptation set with media.
+    None if every period has video and every video adaptation set has media.
     """
     if not dash.periods:
         return 'no periods'
     for period in dash.periods:
-        for adp in period.adaptationSets:
-            if adp.content_type == 'video' and adp.representations:
-                break
-        else:
-            return f'period {period.id} has no video representation'
+        video = [adp for adp in period.adaptationSets if adp.content_type == 'video']
+        if not video:
+            return f'period {period.id} has no video adaptation set'
+        for adp in video:
+            if not adp.representations:
+                return f'period {period.id} has no video representation for track {adp.id}'
     return None
 
 
@@ -162,7 +163,9 @@ class ServeManifest(RequestHandlerBase):
         response = self.check_for_synthetic_manifest_error(options, context)
         if response is not None:
             return response
-        body = flask.render_template(f'manifests/{manifest}', **context)
+        # use the name of the manifest that uses_manifest has found, as the
+        # ".mpd" suffix is optional in the URL
+        body = flask.render_template(f'manifests/{mft.name}.mpd', **context)
         try:
             max_age = int(math.floor(context["minimumUpdatePeriod"]))
         except KeyError:
@@ -233,7 +236,8 @@ class ServeMultiPeriodManifest(RequestHandlerBase):
         context = cast(ManifestTemplateContext, self.create_context(
             title=current_mps.title, mpd=dash, options=options,
             mode=mode))
-        body = flask.render_template(f'manifests/{manifest}', **context)
+        body = flask.render_template(
+            f'manifests/{current_manifest.name}.mpd', **context)
         try:
             max_age = int(math.floor(context["minimumUpdatePeriod"]))
         except KeyError:
@@ -339,8 +343,12 @@ class ServePatch(RequestHandlerBase):
 
         options.update(patch=True, segmentTimeline=True)
         options.remove_unused_parameters('live')
-        original_publish_time = datetime.datetime.fromtimestamp(
-            publish, tz=UTC())
+        try:
+            original_publish_time = datetime.datetime.fromtimestamp(
+                publish, tz=UTC())
+        except (ValueError, OverflowError, OSError) as err:
+            logging.info('Invalid publish time %d: %s', publish, err)
+            return flask.make_response('Invalid publish time', 404)
         try:
             dash = ManifestContext(
                 manifest=mft, options=options, stream=current_stream,
@@ -355,7 +363,7 @@ class ServePatch(RequestHandlerBase):
             stream=current_stream,
             original_publish_time=original_publish_time))
 
-        body = flask.render_template(f'patches/{manifest}.xml', **context)
+        body = flask.render_template(f'patches/{mft.name}.xml', **context)
         try:
             max_age = int(math.floor(context["minimumUpdatePeriod"]))
         except KeyError:
